@@ -73,3 +73,54 @@ class CustomAuth(sansldap.AuthenticationCredential):
             tag=ASN1Tag(TagClass.CONTEXT_SPECIFIC, cls.auth_id, False),
         ).decode(options.string_encoding)
         return CustomAuth(value=value)
+
+
+# ---- a second family of custom types, used only by the direct isolation tests of C19 (two sessions
+# ---- holding *different* registrations of the same kind); not part of the Lean model.
+
+@dataclasses.dataclass(frozen=True)
+class CustomControl2(sansldap.LDAPControl):
+    control_type: str = dataclasses.field(init=False, repr=False, default="1.2.3.4.5.7")
+    value: t.Optional[bytes] = dataclasses.field(init=False, repr=False, default=None)
+
+    data: bytes
+
+    def get_value(self, options: sansldap.ControlOptions) -> t.Optional[bytes]:
+        return b"C2" + self.data
+
+    @classmethod
+    def unpack(cls, control_type, critical, value, options) -> "CustomControl2":
+        value = value or b""
+        if not value.startswith(b"C2"):
+            raise ValueError("CustomControl2 value does not start with the magic")
+        return CustomControl2(critical=critical, data=value[2:])
+
+
+@dataclasses.dataclass(frozen=True)
+class CustomFilter2(sansldap.LDAPFilter):
+    filter_id: int = dataclasses.field(init=False, repr=False, default=1025)
+
+    value: str
+
+    def pack(self, writer: ASN1Writer, options: sansldap.FilterOptions) -> None:
+        writer.write_octet_string(self.value.encode(options.string_encoding), tag=ASN1Tag(TagClass.CONTEXT_SPECIFIC, self.filter_id, False))
+
+    @classmethod
+    def unpack(cls, reader: ASN1Reader, options: sansldap.FilterOptions) -> "CustomFilter2":
+        value = reader.read_octet_string(ASN1Tag(TagClass.CONTEXT_SPECIFIC, cls.filter_id, False)).decode(options.string_encoding)
+        return CustomFilter2(value=value)
+
+
+@dataclasses.dataclass(frozen=True)
+class CustomAuth2(sansldap.AuthenticationCredential):
+    auth_id: int = dataclasses.field(init=False, repr=False, default=1025)
+
+    value: str
+
+    def pack(self, writer: ASN1Writer, options: sansldap.AuthenticationOptions) -> None:
+        writer.write_octet_string(self.value.encode(options.string_encoding), tag=ASN1Tag(TagClass.CONTEXT_SPECIFIC, self.auth_id, False))
+
+    @classmethod
+    def unpack(cls, reader: ASN1Reader, options: sansldap.AuthenticationOptions) -> "CustomAuth2":
+        value = reader.read_octet_string(tag=ASN1Tag(TagClass.CONTEXT_SPECIFIC, cls.auth_id, False)).decode(options.string_encoding)
+        return CustomAuth2(value=value)
